@@ -277,3 +277,85 @@ impl_diffable!(Trimmed);
 pub fn trimmed(x: u32, i: usize) -> Trimmed {
     Trimmed(format!("tok{}{}", x, " ".repeat((i + x as usize) % 3)))
 }
+
+/// An unsized view of a `str` whose `len()` / `slice()` unit is the character,
+/// not the byte (equality, hashing and order are those of the text).
+#[repr(transparent)]
+#[derive(PartialEq, Eq, Hash, PartialOrd, Ord)]
+pub struct Cu(str);
+
+impl Cu {
+    pub fn new(s: &str) -> &Cu {
+        // SAFETY: Cu is a transparent wrapper around str
+        unsafe { &*(s as *const str as *const Cu) }
+    }
+}
+
+impl std::fmt::Debug for Cu {
+    fn fmt(&self, f: &mut std::fmt::Formatter<'_>) -> std::fmt::Result {
+        std::fmt::Debug::fmt(&self.0, f)
+    }
+}
+
+#[derive(Debug, Clone)]
+pub struct CuBuf(String);
+
+impl std::borrow::Borrow<Cu> for CuBuf {
+    fn borrow(&self) -> &Cu {
+        Cu::new(&self.0)
+    }
+}
+
+impl ToOwned for Cu {
+    type Owned = CuBuf;
+    fn to_owned(&self) -> CuBuf {
+        CuBuf(self.0.to_owned())
+    }
+}
+
+fn wrap_cu(v: Vec<&str>) -> Vec<&Cu> {
+    v.into_iter().map(Cu::new).collect()
+}
+
+impl DiffableStr for Cu {
+    fn tokenize_lines(&self) -> Vec<&Self> {
+        wrap_cu(self.0.tokenize_lines())
+    }
+    fn tokenize_lines_and_newlines(&self) -> Vec<&Self> {
+        wrap_cu(self.0.tokenize_lines_and_newlines())
+    }
+    fn tokenize_words(&self) -> Vec<&Self> {
+        wrap_cu(self.0.tokenize_words())
+    }
+    fn tokenize_chars(&self) -> Vec<&Self> {
+        wrap_cu(self.0.tokenize_chars())
+    }
+    #[cfg(feature = "unicode")]
+    fn tokenize_unicode_words(&self) -> Vec<&Self> {
+        wrap_cu(self.0.tokenize_unicode_words())
+    }
+    #[cfg(feature = "unicode")]
+    fn tokenize_graphemes(&self) -> Vec<&Self> {
+        wrap_cu(self.0.tokenize_graphemes())
+    }
+    fn as_str(&self) -> Option<&str> {
+        Some(&self.0)
+    }
+    fn to_string_lossy(&self) -> Cow<'_, str> {
+        Cow::Borrowed(&self.0)
+    }
+    fn ends_with_newline(&self) -> bool {
+        self.0.ends_with(&['\r', '\n'][..])
+    }
+    fn len(&self) -> usize {
+        self.0.chars().count()
+    }
+    fn slice(&self, rng: Range<usize>) -> &Self {
+        let at = |c: usize| self.0.char_indices().nth(c).map(|(i, _)| i).unwrap_or(self.0.len());
+        assert!(rng.end <= self.0.chars().count(), "slice({:?}) on a text of {} chars", rng, self.0.chars().count());
+        Cu::new(&self.0[at(rng.start)..at(rng.end)])
+    }
+    fn as_bytes(&self) -> &[u8] {
+        self.0.as_bytes()
+    }
+}
